@@ -1157,7 +1157,11 @@ Definition walker_cpp_ser_macros : list (string * string * list tnode) :=
   [("serialize", "t",
     [NIf [
        ((CAtom "t.inner_type.bit_length_set.max > 0"),
-        [NAct KMacro "_serialize_impl(t)"])]
+        [NIf [
+           ((CNot (CAtom "t.inner_type.fields_except_padding")),
+            [NAct KCall "(void)(obj);"])]
+          [];
+         NAct KMacro "_serialize_impl(t)"])]
       [NAct KCall "(void)(out_buffer);";
        NAct KCall "(void)(obj);";
        NAct KReturn "return 0U;"]]);
@@ -1404,7 +1408,11 @@ Definition walker_cpp_des_macros : list (string * string * list tnode) :=
   [("deserialize", "t",
     [NIf [
        ((CAtom "t.inner_type.bit_length_set.max > 0"),
-        [NAct KMacro "_deserialize_impl(t)"])]
+        [NIf [
+           ((CNot (CAtom "t.inner_type.fields_except_padding")),
+            [NAct KCall "(void)(obj);"])]
+          [];
+         NAct KMacro "_deserialize_impl(t)"])]
       [NAct KCall "(void)(in_buffer);";
        NAct KCall "(void)(obj);";
        NAct KReturn "return 0;"]]);
@@ -1979,6 +1987,141 @@ Definition walker_c_decl_definitions : list tnode :=
           []]])]
     []].
 
+Definition walker_c_decl_base : list tnode :=
+  [NIf [
+     ((CAtom "nunavut.embed_auditing_info"),
+      [])]
+    [];
+   NIf [
+     ((CAtom "nunavut.embed_auditing_info"),
+      [])]
+    [];
+   NFor "key, value in nunavut.platform_version.items()"
+    [];
+   NFor "key, value in options.items()"
+    [];
+   NIf [
+     ((CAtom "T.deprecated"),
+      [])]
+    [];
+   NSet "include_guard" "{{ T.full_name | ln.c.macrofy }}_{{ T.version.major }}_{{ T.version.minor }}_INCLUDED_";
+   NAct KRaw "#ifndef {{ include_guard }}";
+   NAct KRaw "#define {{ include_guard }}";
+   NFor "n in T | includes"
+    [NAct KRaw "#include {{ n }}"];
+   NIf [
+     ((CAtom "nunavut.support.omit"),
+      [NAct KRaw "#include <assert.h>";
+       NAct KRaw "#include <stdbool.h>";
+       NAct KRaw "#include <stdint.h>"])]
+    [NAct KRaw "static_assert( NUNAVUT_SUPPORT_LANGUAGE_OPTIONS_KEY_SET == {{ options.keys() | sort(case_sensitive=true) | join("","") | to_static_assertion_value }},";
+     NAct KRaw """{{ T.source_file_path.as_posix() if nunavut.embed_auditing_info else T.source_file_path.name }} is trying to use a serialization library that was compiled with """;
+     NAct KRaw """different language options. This is dangerous and therefore not allowed."" );";
+     NFor "key, value in options.items()"
+      [NAct KRaw "static_assert( {{ ""NUNAVUT_SUPPORT_LANGUAGE_OPTION_{}"".format(key) | ln.c.macrofy }} == {{ value | to_static_assertion_value }},";
+       NAct KRaw """{{ T.source_file_path.as_posix() if nunavut.embed_auditing_info else T.source_file_path.name }} is trying to use a serialization library that was compiled with """;
+       NAct KRaw """different language options. This is dangerous and therefore not allowed."" );"]];
+   NAct KRaw "#ifdef __cplusplus";
+   NAct KRaw "extern ""C"" {";
+   NAct KRaw "#endif";
+   NIf [
+     ((CAtom "T.has_fixed_port_id"),
+      [NAct KRaw "#define {{ T | full_reference_name }}_HAS_FIXED_PORT_ID_ true";
+       NAct KRaw "#define {{ T | full_reference_name }}_FIXED_PORT_ID_ {{ T.fixed_port_id }}U"])]
+    [NAct KRaw "#define {{ T | full_reference_name }}_HAS_FIXED_PORT_ID_ false"];
+   NIf [
+     ((CAtom "<block> contents"),
+      [])]
+    [];
+   NAct KRaw "#ifdef __cplusplus";
+   NAct KRaw "}";
+   NAct KRaw "#endif";
+   NAct KRaw "#endif"].
+
+Definition walker_cpp_decl_base : list tnode :=
+  [NIf [
+     ((CAtom "nunavut.embed_auditing_info"),
+      [])]
+    [];
+   NIf [
+     ((CAtom "nunavut.embed_auditing_info"),
+      [])]
+    [];
+   NIf [
+     ((CAtom "nunavut.support.omit"),
+      [])]
+    [];
+   NFor "template_set in nunavut.template_sets"
+    [];
+   NAct KRaw "{{ nunavut.platform_version | text_table(""// "") }}";
+   NAct KRaw "{{ options | text_table(""// "") }}";
+   NIf [
+     ((CAtom "<ifuses> ""std_variant"""),
+      [NAct KRaw "yes"])]
+    [NAct KRaw "no"];
+   NIf [
+     ((CAnd (CAtom "T.deprecated") (CAtom "options.std | int < 14")),
+      [])]
+    [];
+   NAct KRaw "#ifndef {{ T.full_name | ln.c.macrofy }}_{{ T.version.major }}_{{ T.version.minor }}_HPP_INCLUDED";
+   NAct KRaw "#define {{ T.full_name | ln.c.macrofy }}_{{ T.version.major }}_{{ T.version.minor }}_HPP_INCLUDED";
+   NIf [
+     ((CAtom "T.deprecated"),
+      [NAct KRaw "#if defined(__GNUC__) || defined(__clang__)";
+       NAct KRaw "# pragma GCC diagnostic push";
+       NAct KRaw "# pragma GCC diagnostic ignored ""-Wdeprecated-declarations""";
+       NAct KRaw "#endif"])]
+    [];
+   NFor "n in T | includes"
+    [NIf [
+       ((CAtom "loop.first"),
+        [])]
+      [];
+     NAct KRaw "#include {{ n }}"];
+   NIf [
+     ((CAtom "nunavut.support.omit"),
+      [NAct KRaw "#include <cstddef>";
+       NAct KRaw "#include <cstdint>";
+       NAct KRaw "#include <memory>";
+       NAct KRaw "#include <new>";
+       NAct KRaw "#include <type_traits>";
+       NAct KRaw "#include <utility>"])]
+    [];
+   NAct KRaw "{{ T.full_namespace | open_namespace }}";
+   NIf [
+     ((CNot (CAtom "nunavut.support.omit")),
+      [NFor "key, value in options.items()"
+        [NIf [
+           ((CAtom "loop.first"),
+            [])]
+          [];
+         NIf [
+           ((CAtom "loop.first"),
+            [NAct KRaw "static_assert( nunavut::support::language_options_key_set == {{ options.keys() | sort(case_sensitive=true) | join("","") | ln.c.to_static_assertion_value }},";
+             NAct KRaw """{{ T.source_file_path.as_posix() if nunavut.embed_auditing_info else T.source_file_path.name }} """;
+             NAct KRaw """is trying to use a serialization library that was compiled with """;
+             NAct KRaw """different language options. This is dangerous and therefore not """;
+             NAct KRaw """allowed."" );"])]
+          [];
+         NAct KRaw "static_assert( nunavut::support::options::{{ key | id }} == {{ value | ln.c.to_static_assertion_value }},";
+         NAct KRaw """{{ T.source_file_path.as_posix() if nunavut.embed_auditing_info else T.source_file_path.name }} """;
+         NAct KRaw """is trying to use a serialization library that was compiled with """;
+         NAct KRaw """different language options. This is dangerous and therefore not """;
+         NAct KRaw """allowed."" );"]])]
+    [];
+   NIf [
+     ((CAtom "<block> object"),
+      [])]
+    [];
+   NAct KRaw "{{ T.full_namespace | close_namespace }}";
+   NIf [
+     ((CAtom "T.deprecated"),
+      [NAct KRaw "#if defined(__GNUC__) || defined(__clang__)";
+       NAct KRaw "# pragma GCC diagnostic pop";
+       NAct KRaw "#endif"])]
+    [];
+   NAct KRaw "#endif"].
+
 Definition walker_cpp_decl_composite_type : list tnode :=
   [NSet "from" "'_definitions.j2' import assert";
    NIf [
@@ -2014,8 +2157,8 @@ Definition walker_cpp_decl_composite_type : list tnode :=
     [NAct KRaw "static constexpr bool IsServiceType = false;"];
    NJAssert (CAtom "composite_type.extent % 8 == 0");
    NJAssert (CAtom "composite_type.inner_type.extent % 8 == 0");
-   NAct KRaw "static constexpr {{ typename_unsigned_length }} ExtentBytes = {{ composite_type.extent";
-   NAct KRaw "static constexpr {{ typename_unsigned_length }} SerializationBufferSizeBytes = {{ composite_type.inner_type.extent";
+   NAct KRaw "static constexpr {{ typename_unsigned_length }} ExtentBytes = {{ composite_type.extent // 8 }}UL;";
+   NAct KRaw "static constexpr {{ typename_unsigned_length }} SerializationBufferSizeBytes = {{ composite_type.inner_type.extent // 8 }}UL;";
    NAct KRaw "static_assert(ExtentBytes >= SerializationBufferSizeBytes, ""Internal constraint violation"");";
    NAct KRaw "static_assert(ExtentBytes < (std::numeric_limits<{{ typename_unsigned_bit_length }}>::max() / 8U), ""This message is too large to be handled by the selected types"");";
    NFor "field in composite_type.fields_except_padding"
@@ -2496,7 +2639,11 @@ Definition walker_py_decl_base : list tnode :=
        NIf [
          ((CAtom "t.element_type is IntegerType"),
           [NAct KRaw "_s_ = _np_.asarray({{ src }})";
-           NAct KRaw "if _s_.size and _s_.dtype.kind in 'iufO' and not ({{ t.element_type.inclusive_value_range.min }} <= _s_.min() and _s_.max() <= {{ t.element_type.inclusive_value_range.max }}):";
+           NAct KRaw "if _s_.size and _s_.dtype.kind in 'iufO':";
+           NAct KRaw "_lo_, _hi_ = _s_.min(), _s_.max()";
+           NAct KRaw "if _s_.dtype.kind != 'O':";
+           NAct KRaw "_lo_, _hi_ = _lo_.item(), _hi_.item()";
+           NAct KRaw "if not ({{ t.element_type.inclusive_value_range.min }} <= _lo_ and _hi_ <= {{ t.element_type.inclusive_value_range.max }}):";
            NAct KRaw "raise ValueError(f'{{ f.name }}: array element is not in [{{ t.element_type.inclusive_value_range.min }}, {{ t.element_type.inclusive_value_range.max }}]')"])]
         [];
        NAct KRaw "_a_ = _np_.array({{ src }}, {{ t.element_type|numpy_scalar_type }}).flatten()";
